@@ -357,7 +357,7 @@ func (g *Gen) run() (err error) {
 	// vacuity guard: every call-site clause of the contract must have found its call
 	if g.c != nil {
 		for _, cs := range g.c.Calls {
-			if !cs.Matched {
+			if !cs.Matched && !cs.Optional {
 				g.obls = append(g.obls, &Obl{Name: fmt.Sprintf("%s/callsite/%s#%d/unmatched", g.key, cs.Callee, cs.K), Fn: g.key, Kind: "vacuity", Verdict: "vacuous",
 					Src: "the contract has a call-site clause for a call that does not occur in the function", Output: "no call of " + cs.Callee + " with that ordinal", gen: g})
 			}
@@ -368,6 +368,13 @@ func (g *Gen) run() (err error) {
 				if li.ord == k {
 					found = true
 				}
+			}
+			if ls := g.c.Loops[k]; !found && ls != nil && len(ls.After) == 0 && len(ls.Step) == 0 {
+				// invariants, decreases clauses and hints are proof aids for a loop; when the loop is
+				// gone (replaced by a library call, say) they have nothing left to support and nothing
+				// is lost.  Loop postconditions (after / step) are specification and stay obligations.
+				g.warnings = append(g.warnings, fmt.Sprintf("loop %d no longer exists: its invariant/decreases/hint clauses are ignored", k))
+				continue
 			}
 			if !found {
 				g.obls = append(g.obls, &Obl{Name: fmt.Sprintf("%s/loop%d/unmatched", g.key, k), Fn: g.key, Kind: "vacuity", Verdict: "vacuous",
